@@ -37,7 +37,12 @@ def tablesReport : List String :=
     | none => s!"reachable {r.finding} ? ? 0 ?"
   let counts := [.guarded, .benign, .reachable, .hostEffect, .dead].map fun v =>
     s!"{showVerdict v}={(Gen.sites.filter (fun s => reviewed.any (fun r => r.id == s.id && r.verdict == v))).length}"
-  b ++ u ++ un ++ st ++ re ++ [s!"sites {Gen.sites.length} " ++ " ".intercalate counts]
+  let all := Gen.sites.map fun s =>
+    let v := match reviewed.find? (fun r => r.id == s.id) with
+      | some r => showVerdict r.verdict
+      | none => "unclassified"
+    s!"site {v} {s.file} {s.line} {s.fn} {s.kind}"
+  b ++ u ++ un ++ st ++ re ++ all ++ [s!"sites {Gen.sites.length} " ++ " ".intercalate counts]
 
 /-! ### parsing programs of the recovery model -/
 
